@@ -975,6 +975,25 @@ class Lowerer:
                 if not on:
                     raise InfraError('contract no longer attached: region start call %s not found in %s' % (kfrom, self.cur.cname))
                 return '%s{\n%s%s}\n' % (self.ind(d - 1), ''.join(parts), self.ind(d - 1))
+            after = getattr(self.cur, 'keep_after', None) if top else None
+            if after:
+                # region = every top-level statement AFTER the (kind, ordinal) one, to the end of the body
+                counts, parts, hit = {}, [], False
+                for c in n.get('inner', []):
+                    ck = c.get('kind')
+                    o = counts.get(ck, 0)
+                    counts[ck] = o + 1
+                    if hit:
+                        parts.append(self.skel_stmt(c, d + 1) if getattr(self.cur, 'skeleton', False) else self.stmt(c, d + 1))
+                    elif (ck, o) == tuple(after):
+                        hit = True
+                        self.note('region of %s starts after top-level %s #%d at %s: the statements before it are not lowered' % (self.cur.cname, ck, o, where(c)))
+                if not hit:
+                    raise InfraError('contract no longer attached: region start %s not found in %s' % (after, self.cur.cname))
+                parts.append(self.ind(d + 1) + 'REGION_FALLTHROUGH;\n')
+                if self.cur.rett.kind != 'b' or self.cur.rett.name != 'void':
+                    parts.append(self.ind(d + 1) + '{ %s; return __region_ret; }\n' % self.cdecl(self.cur.rett.noref(), '__region_ret'))
+                return '%s{\n%s%s}\n' % (self.ind(d - 1), ''.join(parts), self.ind(d - 1))
             until = getattr(self.cur, 'keep_until', None) if top else None
             if until:
                 # region = every top-level statement before the (kind, ordinal) one
